@@ -185,7 +185,7 @@ package algo
 //@ spec func occu(text *util.Chars, pattern []rune, cs bool, nz bool, s int) bool = forall(k, 0, len(pattern), foldu(cs, nz, at(text, s + k)) == pattern[k])
 
 //@ func PrefixMatch
-//@ property C02
+//@ property C02 C01
 //@ requires text != nil && validChars(text) && validRunes(pattern) && len(pattern) <= 2147483648
 //@ ensures r1 == nil
 //@ ensures len(pattern) == 0 ==> r0.Start == 0 && r0.End == 0
@@ -199,7 +199,7 @@ package algo
 //@ use occ_g(text, pattern, caseSensitive, normalize, ptrim(text, pattern), len(pattern))
 
 //@ func SuffixMatch
-//@ property C02
+//@ property C02 C01
 //@ requires text != nil && validChars(text) && validRunes(pattern) && len(pattern) <= 2147483648
 //@ ensures r1 == nil
 //@ ensures len(pattern) == 0 ==> r0.Start == clen(text) - trailws(text, clen(text)) && r0.End == r0.Start
@@ -346,7 +346,7 @@ package algo
 //@ func debugV2 trusted
 
 //@ func FuzzyMatchV2
-//@ property C02 C03 C05
+//@ property C02 C03 C05 C01
 //@ assert @"bonus := bonusMatrix[prevClass][class]" char == foldc(caseSensitive, normalize, at(input, minIdx + off)) && T[off] == char
 //@ requires !DEBUG
 //@ cut @"pos := posArray(withPos, M)" phase 4 (back-trace)
@@ -421,7 +421,7 @@ package algo
 // characters are equal is decided through string conversion and strings.ToLower in the non-normalising
 // branch: library semantics, not specified here.)
 //@ func EqualMatch
-//@ property C02
+//@ property C02 C01
 //@ requires text != nil && validChars(text) && validRunes(pattern)
 //@ ensures r1 == nil && (r0.Start < 0 ==> r0.Start == -1 && r0.End == -1)
 //@ ensures r0.Start >= 0 ==> len(pattern) > 0 && r0.End == r0.Start + len(pattern) && r0.End <= clen(text)
